@@ -103,19 +103,76 @@ def measure_room(ctx):
         ctx.cmp.tag('corr:_source2patch gate', bool(vis[j]), common.unhex(t[1]) != 0)
 
 
+def measure_screen(ctx):
+    """Hidden behind another surface: a room with a free-standing one-sided screen (either normal
+    direction), sources on both sides; every patch whose centre is in the screen's shadow, or that
+    faces away from the source, must receive exactly zero; the others a positive share."""
+    sp = common.import_repo()
+    from . import c07
+    rng = ctx.rng
+    sides = [float(x) for x in rng.uniform(2.5, 4.5, size=3)]
+    walls = sp.testing.shoebox_room_stub(*sides)
+    ax = int(rng.integers(0, 3))
+    a1, a2 = [k for k in range(3) if k != ax]
+    o = np.round(np.array(sides) * rng.uniform(0.3, 0.5, size=3) * 8) / 8      # dyadic: the 1 m screen is exactly 1 m
+    q = np.array([o, o, o, o], dtype=float)
+    q[1, a1] += 1.0
+    q[2, a1] += 1.0
+    q[2, a2] += 1.0
+    q[3, a2] += 1.0
+    nn = np.zeros(3)
+    nn[ax] = float(rng.choice([1, -1]))
+    up = np.zeros(3)
+    up[a1] = 1.0
+    screen = sp.geometry.Polygon(q, up, nn)
+    r = sp.DirectionalRadiosityFast.from_polygon(walls + [screen], 1.0)
+    for _ in range(3):
+        src = scenes.gen_point_inside(rng, sides, margin=0.1)
+        if abs(src[ax] - o[ax]) < 0.05:
+            continue
+        r.init_source_energy(scenes.coords(src))
+        ctx.oracle_evals += 1
+        e = np.asarray(r._energy_init_source)[:, 0, 0]
+        ids = np.asarray(r._patch_to_wall_ids)
+        for j in range(r.n_patches):
+            if ids[j] == 6:
+                continue
+            cj = r.patches_center[j]
+            ok_s, mg = c07.oracle_visible(src, cj, q, nn, False, False)
+            wn = np.asarray(r.walls_normal[ids[j]], float)
+            facing = np.dot(wn, src - cj) > 1e-3
+            if mg < 1e-3:
+                continue
+            expect_zero = (not ok_s) or (not facing)
+            if expect_zero and e[j] != 0:
+                ctx.violation('hidden-nonzero', 'patch %d is hidden from the source behind a one-sided screen (or faces away) but receives energy %.4g' % (j, e[j]),
+                              {'sides': sides, 'screen': q, 'screen_normal': nn, 'src': src}, float(e[j]), 0.0)
+                return
+            if (not expect_zero) and not e[j] > 0:
+                ctx.violation('visible-zero', 'patch %d is in line of sight of the source but receives no energy' % j,
+                              {'sides': sides, 'screen': q, 'screen_normal': nn, 'src': src}, float(e[j]), '> 0')
+                return
+    ctx.count('screen_rooms')
+
+
 def run(ctx):
     corr_pt(ctx, 60 if ctx.tier == 'quick' else 1500)
     for _ in range(3 if ctx.tier == 'quick' else 30):
         measure_room(ctx)
+    for _ in range(3 if ctx.tier == 'quick' else 30):
+        measure_screen(ctx)
 
 
 def oracle(ctx, budget_s=60):
     t = common.Timer()
     while t.s() < budget_s and not ctx.violations:
         measure_room(ctx)
+        measure_screen(ctx)
 
 
 def replay(ctx, rp):
     corr_pt(ctx, 60)
     measure_room(ctx)
+    for _ in range(5):
+        measure_screen(ctx)
     return not ctx.violations
